@@ -578,3 +578,61 @@ pub fn bulk_decode(o: &Opts, tr: &mut Tr, prop: &str, r: &mut StdRng, n_quick: u
         tr.release(sus);
     }
 }
+
+/// C09 (decode side): every two-byte zlib header, flat and ring of each size; corrupted trailers.
+pub fn scn_zlibframe(o: &Opts, tr: &mut Tr, prop: &str) {
+    use miniz_oxide::inflate::core::{decompress, DecompressorOxide};
+    let mut r = gen::rng(o.seed, 909);
+    // 1. all 65536 headers in front of a minimal valid body (empty fixed block, Adler-32 of nothing)
+    tr.case("zhdr-all", prop, json!({}));
+    for cmf in 0..=255u32 {
+        for flg in 0..=255u32 {
+            let z = [cmf as u8, flg as u8, 0x03, 0x00, 0, 0, 0, 1];
+            let run = |size: usize, wrap: bool| -> String {
+                let mut d = DecompressorOxide::new();
+                let mut out = vec![0u8; size];
+                let flags = TINFL_FLAG_PARSE_ZLIB_HEADER | if wrap { 0 } else { TINFL_FLAG_USING_NON_WRAPPING_OUTPUT_BUF };
+                let (st, _, _) = decompress(&mut d, &z, &mut out, 0, flags);
+                st_name(st)
+            };
+            let flat = run(16, false);
+            let rings: Vec<serde_json::Value> = (8..=15).map(|k| json!([1usize << k, run(1usize << k, true)])).collect();
+            tr.ev(json!({"ev": "zhdr", "cmf": cmf, "flg": flg, "flat": flat, "rings": rings}));
+        }
+    }
+    // 2. corrupted trailers under chunkings, with and without the ignore-checksum options
+    let srcs = sources(o, &mut r, false);
+    let mut idx = 0;
+    for s in srcs.iter().filter(|s| s.zlib) {
+        for k in 0..4usize {
+            idx += 1;
+            let mut z = s.z.clone();
+            let n = z.len();
+            let bit = 1u8 << r.gen_range(0..8);
+            z[n - 1 - k] ^= bit;
+            let bf = TINFL_FLAG_PARSE_ZLIB_HEADER;
+            tr.case(&format!("ztr-{}-b{}-{}", s.name, k, idx), prop, json!({"zlen": n}));
+            tr.ev(stream_event(&z, Some(&s.p), true, json!({})));
+            let pl = s.p.len();
+            drive_flat(tr, 1, &z, bf, &[n], &Budget::Unlimited, pl + 4, false, true, &mut r);
+            // cuts around the end of the deflate data and inside the trailer
+            for back in 1..=6usize.min(n) {
+                drive_flat(tr, 2, &z, bf, &[n - back, back], &Budget::Unlimited, pl + 4, false, true, &mut r);
+                tr.ev(json!({"ev": "equiv", "a": 1, "b": 2}));
+            }
+            drive_flat(tr, 3, &z, bf, &gen::chunks("fixed1", n, &mut r), &Budget::Random(vec![1, 2, usize::MAX]), pl + 4, false, true, &mut r);
+            drive_ring(tr, 4, &z, bf, &gen::chunks("rand", n, &mut r), &Budget::Unlimited, 32768, true, &mut r);
+            drive_inflate(tr, 1, &z, DataFormat::Zlib, &gen::chunks("rand", n, &mut r), &[1, 100, 40000], false, &mut r);
+            drive_inflate(tr, 2, &z, DataFormat::Zlib, &[n], &[pl + 100], true, &mut r);
+            vec_fns(tr, &z, true, &[-1]);
+            slice_iter(tr, &z, true, false, 1 + r.gen_range(0..9), pl + 1);
+            // same corrupted stream, checksum ignored: must decode
+            tr.case(&format!("ztr-ign-{}-b{}-{}", s.name, k, idx), prop, json!({"zlen": n}));
+            tr.ev(stream_event(&z, Some(&s.p), true, json!({"ignore_adler": true})));
+            drive_flat(tr, 1, &z, bf | TINFL_FLAG_IGNORE_ADLER32, &[n], &Budget::Unlimited, pl + 4, false, true, &mut r);
+            drive_flat(tr, 2, &z, bf | TINFL_FLAG_IGNORE_ADLER32, &gen::chunks("rand", n, &mut r), &Budget::Unlimited, pl + 4, false, true, &mut r);
+            drive_inflate(tr, 1, &z, DataFormat::ZLibIgnoreChecksum, &gen::chunks("rand", n, &mut r), &[7, 40000], false, &mut r);
+            slice_iter(tr, &z, true, true, 1 + r.gen_range(0..9), pl + 1);
+        }
+    }
+}
